@@ -68,6 +68,37 @@ def check_case(ctx, cs, prop_site="insert_knot"):
             ctx.violate(site, tg + ["raises", "evaluation"], small, {"exception": repr(e)[:300]})
 
 
+def check_generated_knots(ctx):
+    """curves whose knot vector comes from knotvector.generate(): inserting an existing interior knot, written as the literal k / n,
+    once more leaves every evaluated point where it was and raises that knot's multiplicity by one"""
+    from geomdl import BSpline, knotvector, operations
+    ctx.full = {"generated_knots": True}
+    for p_, n_ in ((3, 13), (2, 9), (3, 11), (2, 12), (4, 10)):
+        kv = knotvector.generate(p_, n_)
+        m_ = n_ - p_
+        for k_ in range(1, m_):
+            u = float(k_) / m_
+            small = {"degree": p_, "ctrlpts": n_, "u": "%d/%d" % (k_, m_)}
+            tg = ["generated_knot_vector", "existing_knot", "p=%d" % p_]
+            ctx.count(("generated", p_, n_, k_), sample=small)
+            try:
+                c = BSpline.Curve()
+                c.degree = p_
+                c.ctrlpts = [[float(i), float((i * i) % 5), float((3 * i) % 4)] for i in range(n_)]
+                c.knotvector = list(kv)
+                prms = [j / 16.0 for j in range(17)]
+                before = [c.evaluate_single(t) for t in prms]
+                mult0 = sum(1 for x in c.knotvector if abs(x - u) < 1e-12)
+                operations.insert_knot(c, [u], [1])
+                after = [c.evaluate_single(t) for t in prms]
+                mult1 = sum(1 for x in c.knotvector if abs(x - u) < 1e-12)
+                if not close_seq(after, before, 1e-9) or mult1 != mult0 + 1 or len(c.ctrlpts) != n_ + 1:
+                    bad = next((i for i, (a, b) in enumerate(zip(after, before)) if not close_seq(a, b, 1e-9)), None)
+                    ctx.violate("operations.insert_knot", tg, small, {"multiplicity": [mult0, mult1], "first_moved_parameter": None if bad is None else prms[bad]})
+            except Exception as e:
+                ctx.violate("operations.insert_knot", tg + ["raises"], small, {"exception": repr(e)[:200]})
+
+
 THEOREMS = ["P_SameShape: [][SameH(obj, obj')]_vars (every evaluated point unchanged, exact, deg+1 samples per span and direction)",
             "P_Structure (knot vector gains exactly the requested copies; net grows in that direction only)",
             "P_Reject (over-insertion rejected; single-direction rejection leaves the object unchanged)", "T_WellFormed"]
@@ -91,6 +122,7 @@ def run(ctx):
         raise core.MachineryError("vacuous model: rejected=%d multi=%d kinds=%s" % (n_rej, n_multi, kinds))
     ctx.traces = len(res.cases)
     ctx.extra.update({"histories_by_kind": kinds, "rejected_steps": n_rej, "multi_direction_steps": n_multi})
+    check_generated_knots(ctx)
     from .. import tracedrv, repotrace
     repotrace.repo_trace_check(ctx)
     tracedrv.trace_check(ctx, 150 if ctx.tier == "quick" else 1200, 6 if ctx.tier == "quick" else 8)
@@ -100,6 +132,8 @@ def run(ctx):
 
 
 def replay(ctx, v):
+    if "generated_knots" in v["full"]:
+        return check_generated_knots(ctx)
     if "trace" in v["full"]:
         from .. import tracedrv
         return tracedrv.replay_trace(ctx, v["full"])
